@@ -473,7 +473,10 @@ class The(ResultQuantifier[T]):
 
     def evaluate(self) -> TypingUnion[Iterable[T], T, UnificationDict]:
         try:
-            result = self._evaluate_()
+            # like An.evaluate: predicates and inferred instances are constructed concretely during evaluation,
+            # also when evaluate() is called inside a symbolic_mode/rule_mode block.
+            with symbolic_mode(mode=None):
+                result = self._evaluate_()
             result = self._process_result_(result)
         finally:
             # also when no or several solutions were found, otherwise a re-evaluation sees stale de-duplication state.
